@@ -709,10 +709,16 @@ OptContract(e) ==
 Answers(b) == b \in {"sat", "unsat", "crash_post"}
 PortfolioContract(e) ==
     LET n == Len(e.beh)
+        \* members that really decide (Boolean assertions): the verdict is the truth about the round's assertions
+        BoolNames(ts) == SetToSeqBy(UNION {FreeNames(ts[j]) : j \in 1..Len(ts)})
+        Satisfiable(ts) == LET ns == BoolNames(ts)
+                           IN  \E bits \in [1..Len(ns) -> BOOLEAN] :
+                                   AllTrue(ts, ModelOf([j \in 1..Len(ns) |-> [n |-> ns[j], v |-> BoolC(bits[j])]]))
+        Expected(rd) == IF "decide" \in DOMAIN rd /\ rd.decide THEN (IF Satisfiable(rd.asserts) THEN "sat" ELSE "unsat") ELSE rd.verdict
         someone == \E i \in 1..n : Answers(e.beh[i])
         Bad(r) ==
             LET rd == e.rounds[r] IN
-            (IF someone THEN <<>> \o Fl("returns_members_verdict", rd.res = rd.verdict)
+            (IF someone THEN <<>> \o Fl("returns_members_verdict", rd.res = Expected(rd))
                         ELSE Fl("reports_error_when_every_member_fails", rd.res = "raised")) \o
             Fl("never_blocks_forever", rd.res # "blocked") \o
             Fl("only_the_winner_serves_control_commands", \A j \in 1..Len(rd.served) : rd.served[j] = rd.winner) \o
